@@ -26,6 +26,12 @@
 (*  Eigen::GeneralizedSelfAdjointEigenSolver reads the LOWER triangles of  *)
 (*  both arguments (Mat_Core.read_lower) — `seen` below.                   *)
 (*                                                                         *)
+(*  Variants.  `*_shipped`  = the pinned tree (before fix F9)                *)
+(*             `*_repaired` = after fix F9 (commit dc5d8e7): both triangles *)
+(*                            materialised from the upper one               *)
+(*             `lltsa_fixed`= after F9 AND fix F25 (the `lhs` rank update   *)
+(*                            by the feature sum removed)                   *)
+(*                                                                         *)
 (*  Data layout: X : mat F is the D x N feature matrix (X f s = feature f  *)
 (*  of sample s; tapkee's eigen_features_callback hands out column s).     *)
 (*  A sparse matrix is the list of its stored entries (row, col, value)    *)
@@ -102,6 +108,13 @@ Section PencilModel.
     let lhs := rank_update_upper (minus_inv_n N) s (acc_sparse X W mzero) in
     {| p_lhs := sym_from_upper lhs; p_rhs := sym_from_upper rhs |}.
 
+  (* fixes/F25: the line `lhs.selfadjointView<Upper>().rankUpdate(sum, -1./(end-begin))` removed *)
+  Definition lltsa_fixed (X : mat F) (N : nat) (W : sparse) : pencil :=
+    let s := feature_sum X N in
+    let rhs := rank_update_upper (minus_inv_n N) s (acc_samples X N (fun _ => 1) mzero) in
+    let lhs := acc_sparse X W mzero in
+    {| p_lhs := sym_from_upper lhs; p_rhs := sym_from_upper rhs |}.
+
   Definition lpp_repaired (X : mat F) (N : nat) (L : sparse) (dv : vec F) : pencil :=
     let rhs := acc_samples X N dv mzero in
     let lhs := acc_sparse X L mzero in
@@ -150,10 +163,11 @@ Section PencilModel.
     end.
 
   Inductive method : Type := NPE | LLTSA | LPP.
+  Inductive variant : Type := VShipped | VF9 | VF25.
 
   (* Xl : D rows of N entries.  sites: 0 = feature matrix shape, 1 = sparse index, 2 = N = 0 in
      -1./(end-begin), 4 = degree vector length *)
-  Definition run_construct (shipped : bool) (m : method) (N D : nat)
+  Definition run_construct (v : variant) (m : method) (N D : nat)
              (Xl : list (list F)) (W : sparse) (dvl : list F)
     : result (list (list F) * list (list F)) :=
     if negb (wf_matb D N Xl) then OOB 0 (length Xl) D else
@@ -163,16 +177,20 @@ Section PencilModel.
         let X := mof Xl in
         match m with
         | NPE =>
-            let p := if shipped then npe_shipped X N W else npe_repaired X N W in
+            let p := match v with VShipped => npe_shipped X N W | _ => npe_repaired X N W end in
             Ok (mtab D D (p_lhs p), mtab D D (p_rhs p))
         | LLTSA =>
             if Nat.eqb N 0 then OOB 2 0 0 else
-            let p := if shipped then lltsa_shipped X N W else lltsa_repaired X N W in
+            let p := match v with
+                     | VShipped => lltsa_shipped X N W
+                     | VF9 => lltsa_repaired X N W
+                     | VF25 => lltsa_fixed X N W
+                     end in
             Ok (mtab D D (p_lhs p), mtab D D (p_rhs p))
         | LPP =>
             if negb (Nat.eqb (length dvl) N) then OOB 4 (length dvl) N else
             let dv := vof dvl in
-            let p := if shipped then lpp_shipped X N W dv else lpp_repaired X N W dv in
+            let p := match v with VShipped => lpp_shipped X N W dv | _ => lpp_repaired X N W dv end in
             Ok (mtab D D (p_lhs p), mtab D D (p_rhs p))
         end
     end.
